@@ -200,6 +200,7 @@ class Peer:
         self.next_sub_error = False
         self.on_frame = None      # callback(ws, msg) installed by the client adapter
         self.session_closed_at: Optional[float] = None
+        self.tokens: Dict[str, float] = {}
         self.at_handshake: List[str] = []     # frames the next accepted connection finds waiting for it
 
     def now(self) -> float:
@@ -267,6 +268,8 @@ class Peer:
                 self.rest_log.append((t, method, path, fields, "fail"))
                 return _Resp(500, {"status": "error", "reason": "token failed", "code": "X"})
             self.rest_log.append((t, method, path, fields, "ok"))
-            return _Resp(200, {"token": f"tok{len(self.rest_log)}", "user_id": 77})
+            tok = f"tok{len(self.rest_log)}"
+            self.tokens[tok] = t            # websocket tokens are short-lived (60 seconds)
+            return _Resp(200, {"token": tok, "user_id": 77})
         self.rest_log.append((t, method, path, fields, "ok"))
         return _Resp(200, {})
